@@ -7,6 +7,9 @@
 //	value      x.MakeABCIEvent() and MakeEvent(.., h) on generated values of all eight event types
 //	malformed  MakeEvent on mutated / random ABCI events
 //	list       smobserver.makeEvents on lists mixing both
+//	app        ABCI histories on the real shuttermint application (verifharness/appdrv): every raw
+//	           event of every response against the application model's event written with the
+//	           model of MakeABCIEvent (type, keys, values, index flags, order)
 //
 // Oracle (independent of the Coq model): round trip gives back the value; nothing panics; an
 // event is accepted iff the reference grammar below (regular expressions + big.Int + the
@@ -35,13 +38,17 @@ import (
 	"github.com/rs/zerolog"
 	blst "github.com/supranational/blst/bindings/go"
 	abcitypes "github.com/tendermint/tendermint/abci/types"
+	tmproto "github.com/tendermint/tendermint/proto/tendermint/types"
 	"golang.org/x/crypto/sha3"
 
 	"github.com/shutter-network/shutter/shlib/shcrypto"
 
+	"github.com/shutter-network/rolling-shutter/rolling-shutter/app"
 	"github.com/shutter-network/rolling-shutter/rolling-shutter/keyper/shutterevents"
 	"github.com/shutter-network/rolling-shutter/rolling-shutter/keyper/smobserver"
+	"github.com/shutter-network/rolling-shutter/rolling-shutter/shmsg"
 
+	"verifharness/appdrv"
 	"verifharness/vh"
 )
 
@@ -337,14 +344,28 @@ func coqABCI(a mABCI) string {
 // tables for the abstract codecs, computed with the dependencies directly
 
 type tables struct {
-	cas  map[string][]byte
-	pts  map[string][]byte
-	keys map[string][]byte
-	ord  [3][]string
+	cas   map[string][]byte
+	pts   map[string][]byte
+	keys  map[string][]byte
+	ckeys map[string][]byte
+	ord   [4][]string
 }
 
 func newTables() *tables {
-	return &tables{cas: map[string][]byte{}, pts: map[string][]byte{}, keys: map[string][]byte{}}
+	return &tables{cas: map[string][]byte{}, pts: map[string][]byte{}, keys: map[string][]byte{}, ckeys: map[string][]byte{}}
+}
+
+// addCompressedKey records what crypto.DecompressPubkey makes of a 33-byte key.
+func (t *tables) addCompressedKey(k []byte) {
+	if _, ok := t.ckeys[string(k)]; ok {
+		return
+	}
+	pk, err := ethcrypto.DecompressPubkey(k)
+	if err != nil {
+		return
+	}
+	t.ckeys[string(k)] = ethcrypto.FromECDSAPub(pk)
+	t.ord[3] = append(t.ord[3], string(k))
 }
 
 func (t *tables) addAddr(a common.Address) {
@@ -432,7 +453,7 @@ func (t *tables) coq() string {
 		}
 		return vh.CList(xs)
 	}
-	return vh.CApp("T", part(t.cas, t.ord[0]), part(t.pts, t.ord[1]), part(t.keys, t.ord[2]))
+	return vh.CApp("T", part(t.cas, t.ord[0]), part(t.pts, t.ord[1]), part(t.keys, t.ord[2]), part(t.ckeys, t.ord[3]))
 }
 
 // ---------------------------------------------------------------------------------------
@@ -676,6 +697,8 @@ type theCase struct {
 	ABCI  *mABCI  `json:"abci,omitempty"`
 	ABCIs []mABCI `json:"abcis,omitempty"`
 	Note  string  `json:"note,omitempty"`
+	// app stream: a history of ABCI calls on the real application
+	History *appdrv.History `json:"history,omitempty"`
 }
 
 type decodeObs struct {
@@ -829,6 +852,153 @@ func runList(run *vh.Run, c theCase) {
 		obs = "RPanic"
 	}
 	run.AddCase(id, vh.CApp("CList", vh.CN(id), t.coq(), vh.CZ(c.H), coqABCIs(c.ABCIs), obs), c, canonKey(c), len(got) > 0 && len(got) < len(evs))
+}
+
+// ---------------------------------------------------------------------------------------
+// app stream: the raw ABCI events of the real application against the application model's
+// events written with the model of MakeABCIEvent
+
+var reHx = regexp.MustCompile(`\(hx "([0-9a-f]*)"\)`)
+
+// packHx rewrites the (hx "..") literals appdrv emits into the packed form of this driver.
+func packHx(s string) string {
+	return reHx.ReplaceAllStringFunc(s, func(m string) string {
+		b, err := hex.DecodeString(m[5 : len(m)-2])
+		if err != nil {
+			panic("packHx: " + m)
+		}
+		return cb(b)
+	})
+}
+
+func rawExec(a *app.ShutterApp, c appdrv.Call) (evs []abcitypes.Event, panicked bool, msg string) {
+	panicked, msg = vh.Guard(func() {
+		switch c.Kind {
+		case "begin":
+			evs = a.BeginBlock(abcitypes.RequestBeginBlock{Header: tmproto.Header{Height: c.Height}}).Events
+		case "check":
+			a.CheckTx(abcitypes.RequestCheckTx{Tx: c.Tx})
+		case "deliver":
+			evs = a.DeliverTx(abcitypes.RequestDeliverTx{Tx: c.Tx}).Events
+		case "end":
+			evs = a.EndBlock(abcitypes.RequestEndBlock{Height: c.Height}).Events
+		case "commit":
+			a.Commit()
+		default:
+			panic("bad call kind " + c.Kind)
+		}
+	})
+	return
+}
+
+func runApp(run *vh.Run, c theCase) {
+	h := *c.History
+	id := run.NextID()
+	a, err := appdrv.NewApp(h.Genesis)
+	if err != nil {
+		panic(err)
+	}
+	t := newTables()
+	calls := make([]string, len(h.Calls))
+	obs := make([]string, len(h.Calls))
+	nev := 0
+	height := int64(0)
+	for i, call := range h.Calls {
+		calls[i] = packHx(appdrv.CallCoq(call))
+		if call.Kind == "begin" {
+			height = call.Height
+		}
+		if call.Kind == "deliver" || call.Kind == "check" {
+			if m, ok := appdrv.MessageOf(call.Tx); ok && m.GetCheckIn() != nil {
+				t.addCompressedKey(m.GetCheckIn().EncryptionPublicKey)
+			}
+		}
+		evs, panicked, _ := rawExec(a, call)
+		if panicked {
+			obs[i] = "None"
+			continue
+		}
+		xs := make([]string, len(evs))
+		for j, ev := range evs {
+			ra := fromABCI(ev)
+			t.addABCI(ra)
+			xs[j] = coqABCI(ra)
+			nev++
+			run.Dist["app-event:"+ev.Type]++
+			// oracle: the keyper reads every event the application writes, and what it reads
+			// writes back to exactly the same event
+			var x shutterevents.IEvent
+			var derr error
+			if p, msg := vh.Guard(func() { x, derr = shutterevents.MakeEvent(ev, height) }); p {
+				run.Violate(vh.Violation{Key: "C14:app-event-decode-panic", What: "MakeEvent panicked on an event the application emitted: " + msg, Case: c, Observed: ra})
+				continue
+			}
+			if derr != nil {
+				run.Violate(vh.Violation{Key: "C14:app-event-rejected:" + ev.Type, What: "the keyper rejects an event the application emitted: " + derr.Error(), Case: c, Observed: ra})
+				continue
+			}
+			var back abcitypes.Event
+			if p, msg := vh.Guard(func() { back = x.MakeABCIEvent() }); p {
+				run.Violate(vh.Violation{Key: "C14:reencode-panic", What: "re-encoding a decoded application event panicked: " + msg, Case: c, Observed: ra})
+			} else if !reflect.DeepEqual(fromABCI(back), ra) {
+				run.Violate(vh.Violation{Key: "C14:app-event-not-canonical:" + ev.Type, What: "an event the application emitted is not what MakeABCIEvent writes for the value the keyper reads from it", Case: c, Observed: ra, Expected: fromABCI(back)})
+			}
+		}
+		obs[i] = vh.CSome(vh.CList(xs))
+	}
+	run.Dist[fmt.Sprintf("app-history:events=%d", min(nev/5*5, 30))]++
+	run.AddCase(id, vh.CApp("CApp", vh.CN(id), t.coq(), packHx(appdrv.GenesisCoq(h.Genesis)), vh.CList(calls), vh.CList(obs)), c, canonKey(c), nev >= 3)
+}
+
+// dkgHistory: a scripted block in which every DKG message type is accepted, so that all eight
+// event types occur in the app stream whatever the random generator does.
+func dkgHistory(u *appdrv.Universe, v int) appdrv.History {
+	g := appdrv.Genesis{Threshold: 2, ChainID: "verif-chain", ForkNil: true,
+		Validators: []appdrv.KV{{K: make([]byte, 32), P: 10}}}
+	for i := 0; i < 4; i++ {
+		g.Keypers = append(g.Keypers, u.Addrs[i].Bytes())
+	}
+	h := appdrv.History{Genesis: g}
+	nonce := uint64(1000 * (v + 1))
+	tx := func(k int, m *shmsg.Message, note string) {
+		nonce++
+		h.Calls = append(h.Calls, appdrv.Call{Kind: "deliver", Tx: appdrv.SignTx(u.Keys[k], g.ChainID, nonce, m), Note: note})
+	}
+	h.Calls = append(h.Calls, appdrv.Call{Kind: "begin", Height: 1})
+	cfg := shmsg.NewBatchConfig(uint64(v), u.Addrs[:4], 2, 1)
+	tx(0, cfg, "vote")
+	tx(1, cfg, "vote")
+	for i := 0; i < 4; i++ {
+		tx(i, shmsg.NewCheckIn(u.ValKeys[i], ecies.ImportECDSAPublic(&u.Keys[i].PublicKey)), "checkin")
+	}
+	a, b, c := v%4, (v+1)%4, (v+2)%4
+	tx(a, shmsg.NewPolyEval(1, []common.Address{u.Addrs[b], u.Addrs[c]}, [][]byte{{1, 2, 3}, {}}), "polyeval")
+	tx(b, shmsg.NewPolyEval(1, []common.Address{u.Addrs[a]}, [][]byte{{0, 0, 7}}), "polyeval")
+	gm := shcrypto.Gammas{}
+	for i := 0; i <= v%len(u.Gammas); i++ {
+		gm = append(gm, pointOf(u.Gammas[i]))
+	}
+	tx(a, shmsg.NewPolyCommitment(1, &gm), "commitment")
+	empty := shcrypto.Gammas{}
+	tx(b, shmsg.NewPolyCommitment(1, &empty), "empty commitment")
+	tx(b, shmsg.NewAccusation(1, []common.Address{u.Addrs[a], u.Addrs[c]}), "accusation")
+	tx(c, shmsg.NewAccusation(1, nil), "empty accusation")
+	tx(a, shmsg.NewApology(1, []common.Address{u.Addrs[b], u.Addrs[c]}, []*big.Int{big.NewInt(0), new(big.Int).Lsh(big.NewInt(1), 70)}), "apology")
+	tx(c, shmsg.NewApology(1, nil, nil), "empty apology")
+	h.Calls = append(h.Calls, appdrv.Call{Kind: "end", Height: 1}, appdrv.Call{Kind: "commit"},
+		appdrv.Call{Kind: "begin", Height: 2}, appdrv.Call{Kind: "end", Height: 2}, appdrv.Call{Kind: "commit"})
+	return h
+}
+
+func genHistory(run *vh.Run, u *appdrv.Universe, i int) appdrv.History {
+	g := &appdrv.Gen{U: u, R: run.RNG.Fork(), Weird: i%5 == 0}
+	var h appdrv.History
+	if i%2 == 1 {
+		h, _, _ = g.TransitionHistory(3+run.RNG.Intn(5), 8)
+	} else {
+		h, _, _ = g.RandomHistory(3+run.RNG.Intn(5), 7)
+	}
+	return h
 }
 
 func coqABCIs(as []mABCI) string {
@@ -1376,7 +1546,7 @@ func main() {
 	zerolog.SetGlobalLevel(zerolog.Disabled)
 	run := vh.Start("Verif.Corr.C14", 250)
 	defer run.Finish()
-	run.SetPreamble("From Coq Require Import Uint63.\nFrom Verif Require Import Generated.EventSchema Model.Events.")
+	run.SetPreamble("From Coq Require Import Uint63.\nFrom Verif Require Import Model.Powermap Model.App.\nFrom Verif Require Import Generated.EventSchema Model.Events.\nImport Verif.Corr.C14.\nOpen Scope string_scope.")
 	run.Rule = "values of all eight event types (forced boundaries first: zero values, empty lists as nil and as empty slices, singleton-of-empty, boundary integers, identity/generator points; then random), each encoded by MakeABCIEvent and decoded by MakeEvent; malformed stream = leniency probes, structural and character-level mutations of valid events, random attribute lists; lists through makeEvents. Non-trivial = a value with a non-empty list (or a list-free type), a malformed event with at least one attribute, a list from which some but not all events are dropped; distinct by canonical JSON of the case"
 	if run.Replay != "" {
 		var c theCase
@@ -1404,13 +1574,24 @@ func main() {
 	for _, c := range p.leniencyProbes() {
 		runMalformed(run, c)
 	}
+	u := appdrv.NewUniverse(8)
+	for v := 0; v < 8; v++ {
+		h := dkgHistory(u, v)
+		runApp(run, theCase{Kind: "app", History: &h, Note: "scripted DKG block"})
+	}
 	nv := run.Scale(3000, 30000)
 	for i := 0; i < nv; i++ {
 		m := p.genEvent(run.RNG, kinds[i%len(kinds)])
 		runValue(run, theCase{Kind: "value", Ev: &m, H: genH(run.RNG)})
 	}
 	nm := run.Scale(7000, 60000)
+	appEvery := nm / run.Scale(120, 1500)
 	for i := 0; i < nm; i++ {
+		if i%appEvery == 0 {
+			// interleaved so that the (larger) application cases spread over the shards
+			h := genHistory(run, u, i/appEvery)
+			runApp(run, theCase{Kind: "app", History: &h})
+		}
 		r := run.RNG
 		var a mABCI
 		note := "random"
@@ -1470,6 +1651,11 @@ func runCase(run *vh.Run, c theCase) {
 		runMalformed(run, c)
 	case "list":
 		runList(run, c)
+	case "app":
+		if c.History == nil {
+			panic("replay: app case without history")
+		}
+		runApp(run, c)
 	default:
 		panic("replay: unknown case kind " + c.Kind)
 	}
